@@ -181,3 +181,97 @@ def inFragmentKids : List Tree → Bool
 end
 
 end RdfModel.Spec.Microdata
+
+namespace RdfModel.Spec.Microdata
+open RdfModel RdfModel.Spec.Html RdfModel.Desc
+
+/-! ## Writer: graph → Microdata document, with markup choices
+
+  As for RDFa, candidates come from an arbitrary builder and are kept only after validation against `denote`
+  (here for the whole document, because `itemref` and `id` are document-wide). The fallback is the canonical
+  document `canonDoc`, which exists for graphs without blank-node objects; a graph *with* blank-node objects
+  needs nesting or `itemref`, which the writer only produces through validated candidates (`write` reports
+  whether it succeeded). -/
+
+section Writer
+variable {β : Type} [DecidableEq β]
+
+def udedup {α : Type} [DecidableEq α] : List α → List α
+  | [] => []
+  | x :: xs => if x ∈ udedup xs then udedup xs else x :: udedup xs
+
+def termBnodes : Term β → List β
+  | .bnode b => [b]
+  | _ => []
+
+/-- the blank nodes of a graph, each once -/
+def bnodesOf (g : List (Triple β)) : List β := udedup (g.flatMap (fun t => termBnodes t.s ++ termBnodes t.o))
+
+/-- the blank-node subjects of a graph, each once -/
+def bsubjectsOf (g : List (Triple β)) : List β := udedup (g.flatMap (fun t => termBnodes t.s))
+
+def isIriSubj (t : Triple β) : Bool := match t.s with | .iri _ => true | _ => false
+def hasSubj (b : β) (t : Triple β) : Bool := t.s == .bnode b
+
+/-- canonical property element: `<meta itemprop content>` for a string, `<link itemprop href>` for an IRI -/
+def canonLeaf (t : Triple β) : Tree :=
+  match t.o with
+  | .lit lex _ _ => .elem .metaEl { itemprop := some t.p, content := some lex } []
+  | .iri i => .elem .link { itemprop := some t.p, href := some i } []
+  | .bnode _ => .text []
+
+def canonIriItem (t : Triple β) : Tree :=
+  .elem .div { itemscope := true, itemid := (match t.s with | .iri i => some i | _ => none) } [canonLeaf t]
+
+def canonBnodeItem (ts : List (Triple β)) : Tree :=
+  .elem .div { itemscope := true } (ts.map canonLeaf)
+
+def docOf (items : List Tree) : Tree := .elem .html {} [.elem .head {} [], .elem .body {} items]
+
+/-- canonical document: one item per triple with an IRI subject, then one item per blank-node subject -/
+def canonDoc (g : List (Triple β)) : Tree :=
+  docOf ((g.filter isIriSubj).map canonIriItem ++
+         (bsubjectsOf g).map (fun b => canonBnodeItem (g.filter (hasSubj b))))
+
+def indexOf (b : β) : List β → Nat
+  | [] => 0
+  | x :: xs => if x = b then 0 else indexOf b xs + 1
+
+/-- where the canonical document puts blank node `b` -/
+def canonPos (lbl : β → Str) (g : List (Triple β)) (b : β) : Path :=
+  if b ∈ bsubjectsOf g then [1, (g.filter isIriSubj).length + indexOf b (bsubjectsOf g)] else 0 :: lbl b
+
+/-- what the canonical document requires: IRI subjects and objects that the base leaves alone, one-token
+    absolute property names, `xsd:string` literals without language, no blank-node objects -/
+def okTriple (base : Str) (t : Triple β) : Bool :=
+  (match t.s with
+   | .iri i => i != [] && resolveUrl base (trimWs i) == i
+   | .bnode _ => true
+   | .lit _ _ _ => false) &&
+  (fields t.p == [t.p]) &&
+  (match t.o with
+   | .iri i => resolveUrl base i == i
+   | .bnode _ => false
+   | .lit _ dt lang => dt == xsdString && lang.isNone)
+
+def expressible (base : Str) (g : List (Triple β)) : Bool := g.all (okTriple base)
+
+/-- does `doc`, with blank nodes placed by `pos`, denote exactly `g`? `pos` must separate the blank nodes of `g`
+    and stay clear of the positions reserved for blank nodes that do not occur (`0 :: label`). -/
+def validDoc (base : Str) (g : List (Triple β)) (doc : Tree) (pos : β → Path) : Bool :=
+  (denote base doc).isPerm (g.map (Triple.map pos)) &&
+  decide ((bnodesOf g).map pos).Nodup &&
+  (bnodesOf g).all (fun b => (pos b).head? != some 0)
+
+/-- blank-node renaming used for a validated candidate -/
+def candSigma (lbl : β → Str) (g : List (Triple β)) (pos : β → Path) (b : β) : Path :=
+  if b ∈ bnodesOf g then pos b else 0 :: lbl b
+
+/-- The writer: the validated candidate, else the canonical document. The Boolean says whether the result is
+    known to denote `g` (validated candidate, or canonical document of an expressible graph). -/
+def write (base : Str) (g : List (Triple β)) (cand : Tree) (pos : β → Path) : Tree × Bool :=
+  if validDoc base g cand pos then (cand, true)
+  else (canonDoc g, expressible base g)
+
+end Writer
+end RdfModel.Spec.Microdata
